@@ -186,6 +186,18 @@ pub fn rungs() -> Vec<Rung> {
         b[2..4].copy_from_slice(&(n as u16).to_be_bytes());
         Case { prior: vec![], input: b }
     }));
+    v.push(rung("v7-announced-count-over-2-records", 65535, |n| {
+        let mut b = fixed_distinct(7, 2, 0);
+        b[2..4].copy_from_slice(&(n as u16).to_be_bytes());
+        Case { prior: vec![], input: b }
+    }));
+    for ver in [5u16, 7] {
+        v.push(rung(&format!("v{}-announced-count-over-a-bare-header", ver), 65535, move |n| {
+            let mut b = fixed_distinct(ver, 0, 0);
+            b[2..4].copy_from_slice(&(n as u16).to_be_bytes());
+            Case { prior: vec![], input: b }
+        }));
+    }
     v.push(rung("v9-announced-header-count-over-2-flowsets", 65535, |n| {
         let mut p = V9Pkt::new(vec![V9Set::Tpl(vec![V9Tpl { id: 256, fields: vec![fs(1, 4)] }], 0), V9Set::Data(256, distinct(8, 0))]);
         p.count = Some(n as u16);
